@@ -4459,6 +4459,8 @@ def balanced_atom(term):
 # ------------------------------------------------------------------------------------------------
 
 SKIPPED_SECTIONS = []  # (section, message) of the front ends that gave up in this run
+EXCLUDED_FILES = set()  # source files whose targets the MAIN pipeline leaves out in this attempt (see `main`)
+MAIN_FILES = (F_EXT, F_DATES, F_FRAME, F_DAY, F_CC, F_RANGE, F_TIME, F_TF, F_DF)
 
 
 def guarded_section(name, thunk):
@@ -4493,20 +4495,20 @@ def translate(repo, overrides):
 
     enums, enum_src = {}, {}
     enum_derives = {}
-    for rel, name in ENUMS:
+    for rel, name in [x for x in ENUMS if x[0] not in EXCLUDED_FILES]:
         enums[name], line = find_enum(toks(rel), rel, name)
         enum_src[name] = f"{rel}:{line}"
         enum_derives[name] = derives_of(raw_of[rel], name)
 
     penums, penum_src = {}, {}
-    for rel, name in PENUMS:
+    for rel, name in [x for x in PENUMS if x[0] not in EXCLUDED_FILES]:
         penums[name], line = find_penum(toks(rel), rel, name, (), set(enums))
         penum_src[name] = f"{rel}:{line}"
         if ("chrono", "Weekday") not in file_uses(toks(rel)) and any(ft == T("ext", "Weekday") for _, tys in penums[name] for ft in tys):
             fail(rel, f"enum {name}: `Weekday` is read as `chrono::Weekday`, but the file does not import it from there")
 
     structs, struct_src, derefs, derives = {}, {}, set(), {}
-    for rel, name in STRUCTS:
+    for rel, name in [x for x in STRUCTS if x[0] not in EXCLUDED_FILES]:
         fields, line = find_struct(toks(rel), rel, name, known=set(structs), known_enums=set(enums), known_penums=set(penums))
         structs[name] = fields
         struct_src[name] = f"{rel}:{line}"
@@ -4528,7 +4530,7 @@ def translate(repo, overrides):
             want_ = f"impl From < {ename_} > for {ity} {{ fn from ( val : {ename_} ) -> Self {{ val as _ }} }}".split()
             DATED_ENUM_INTO_OK[(ename_, ity)] = any(body_[i : i + len(want_)] == want_ for i in range(len(body_)))
     fns, order = {}, []
-    for target in TARGETS:
+    for target in [x for x in TARGETS if not any(isinstance(y, str) and y in EXCLUDED_FILES for y in x)]:
         header, tparams, self_t, aliases, assoc = None, {}, None, set(), {}
         if target[0] == "const":
             # `const NAME: TYPE = EXPR;` inside `impl TYPE`: a definition without parameters (Rust evaluates it at
@@ -11058,11 +11060,38 @@ def main(argv):
         else:
             print(__doc__, file=sys.stderr)
             return 2
-    try:
-        text = translate(repo, overrides)
-    except Fail as ex:
-        print(f"rs2lean: {ex}", file=sys.stderr)
+    # The main pipeline is one unit, but a construct outside the subset in ONE source file must not take the tie of the
+    # functions of the OTHER files with it: when it fails on `<file>:<line>: ..`, the run is repeated without the targets
+    # (and type declarations) of that file — what calls into them fails in turn and is left out the same way.  The
+    # theorems about what was left out stop building (their properties report it); the others are checked against the
+    # current source as before.  When nothing is left to leave out the translator fails as a whole.
+    excluded, left_out, text = set(), [], None
+    for _ in range(len(MAIN_FILES) + 1):
+        EXCLUDED_FILES.clear()
+        EXCLUDED_FILES.update(excluded)
+        del SKIPPED_SECTIONS[:]
+        try:
+            text = translate(repo, overrides)
+            break
+        except Fail as ex:
+            rel = str(ex).split(":", 1)[0].strip()
+            if rel in MAIN_FILES and rel not in excluded:
+                excluded.add(rel)
+                left_out.append((rel, str(ex)))
+                continue
+            print(f"rs2lean: {left_out[0][1] if left_out else ex}", file=sys.stderr)
+            return 1
+        except Exception as ex:  # a table that expects something that was left out
+            if not left_out:
+                raise
+            print(f"rs2lean: {left_out[0][1]} (then, without that file: {type(ex).__name__}: {ex})", file=sys.stderr)
+            return 1
+    if text is None:
+        print(f"rs2lean: {left_out[0][1]}", file=sys.stderr)
         return 1
+    if left_out:
+        text = "".join(f"-- [main pipeline] the targets of {rel} are NOT TRANSLATED in this run: {msg}\n" for rel, msg in left_out) + text
+        SKIPPED_SECTIONS[:0] = [(f"main pipeline: {rel}", msg) for rel, msg in left_out]
     old = open(out, encoding="utf-8").read() if os.path.exists(out) else None
     if old != text:
         os.makedirs(os.path.dirname(out), exist_ok=True)
